@@ -115,7 +115,7 @@ func (p *Program) functionsFor(id string) []string {
 			if _, isFn := p.funcs[pkg+"."+k]; !isFn {
 				continue // iface contracts etc.
 			}
-			rel := hasTag(ct.Tags, id)
+			rel := hasTag(ct.Tags, id) || hasTag(ct.SafetyTags, id)
 			for _, cs := range [][]*Clause{ct.Ensures, ct.AtRelease, ct.Requires} {
 				for _, c := range cs {
 					if hasTag(c.Tags, id) {
